@@ -558,6 +558,16 @@ def avgOfF32 (count total : Nat) : Int :=
 def avgOfExact (count total : Nat) : Int :=
   if count = 0 then 0 else otRound ((total : Rat) / (count : Rat))
 
+/-- The repaired computation proposed in /verif/fixes/C17-os2-avg.patch:
+    `(2 * total + count) / (2 * count)` in u64, `.min(i16::MAX) as i16`; 0 when nothing is counted. -/
+def avgOfInt (count total : Nat) : Int :=
+  if count = 0 then 0 else satI16 (((2 * total + count) / (2 * count) : Nat) : Int)
+
+/-- `x_avg_char_width` after the repair -/
+def xAvgCharWidthFixed (longs : List LongMetric) (numGlyphs : Nat) : Int :=
+  let ct := avgCountTotal longs numGlyphs
+  avgOfInt ct.1 ct.2
+
 /-- `x_avg_char_width` as implemented -/
 def xAvgCharWidth (longs : List LongMetric) (numGlyphs : Nat) : Int :=
   let ct := avgCountTotal longs numGlyphs
